@@ -218,7 +218,7 @@ class VfVecArm(VfArm):
     name = "vf_vectorized"
     vectorize = True
     budget = {"quick": 300, "thorough": 6000}
-    required_labels = ("shared_node_template", "parallel_edges", "fan_in")
+    required_labels = ("parallel_edges", "fan_in", "edge_template")    # (unique initial values: no shared node templates)
 
 
 ARMS = [VfArm(), VfVecArm()]
